@@ -45,7 +45,7 @@ def nontrivial(scn, allowed):
 
 def runs_for(tier):
     base = dict(NVals=2, NKeys=2, Terms={"C", "E", "U"}, Durs={1, 2}, DKinds={"N"}, KeyMode="some", ElemMode="some",
-                Faults=False, Disposes=False, DCounts=set(), LongLen=4)
+                Faults=False, Disposes=False, DCounts=set(), RxG={0}, LongLen=4)
 
     def c(ops, ml, mt, **kw):
         d = dict(base, Ops=set(ops), MaxLen=ml, MaxT=mt, H=mt + 1)
@@ -64,7 +64,11 @@ def runs_for(tier):
                                             Faults=True, Terms={"U"})),
                 # dispose dimension (C03): the subscriber disposes the result and every group subscription at any instant
                 ("dispose group_by_until, partition", c(["group_by_until", "partition"], 2, 2, LongLen=2, Durs={1},
-                                                        ElemMode="none", Terms={"U"}, Disposes=True))]
+                                                        ElemMode="none", Terms={"U"}, Disposes=True)),
+                # re-entrant feedback: a subscriber of the 1st / 2nd group pushes one more element into the source from
+                # inside that group's completion (expiry) callback - the key is seen again right after its group expired
+                ("feedback group_by_until", c(["group_by_until"], 2, 2, H=4, Durs={1}, ElemMode="none", Terms={"U"},
+                                              RxG={1, 2}))]
     return [("group_by, partition* (every table)", c(["group_by", "partition", "partition_indexed"], 2, 3, LongLen=5,
                                                     KeyMode="all", ElemMode="all")),
             ("group_by 3 values, 3 keys", c(["group_by"], 2, 3, NVals=3, NKeys=3, LongLen=4)),
@@ -79,14 +83,16 @@ def runs_for(tier):
             ("faults group_by_until", c(["group_by_until"], 2, 2, H=4, Durs={1}, DKinds={"N", "E"}, Faults=True)),
             ("group_by_until content-dependent durations", c(["group_by_until"], 4, 3, Durs=set(), DCounts={1, 2, 3},
                                                              ElemMode="none")),
-            ("dispose", c(ALL, 2, 3, LongLen=3, H=5, Disposes=True))]
+            ("dispose", c(ALL, 2, 3, LongLen=3, H=5, Disposes=True)),
+            ("feedback group_by_until", c(["group_by_until"], 2, 3, H=6, Durs={1, 2}, ElemMode="none", Terms={"C", "U"},
+                                          RxG={1, 2, 3}))]
 
 
 def sampled_runs(tier):
     if tier == "quick":
         return []
     big = dict(NVals=4, NKeys=3, Terms={"C", "E", "U"}, Durs={1, 2, 3, 5}, DKinds={"N", "C"}, KeyMode="all", ElemMode="all",
-               Faults=False, Disposes=True, DCounts={1, 2, 3}, LongLen=9, MaxLen=5, MaxT=9, H=11)
+               Faults=False, Disposes=True, DCounts={1, 2, 3}, RxG={0, 0, 1, 2, 3}, LongLen=9, MaxLen=5, MaxT=9, H=11)
     out = [("sampled " + o, o, dict(big, Ops={o}), 1500) for o in ALL]
     out.append(("sampled faults group_by_until", "group_by_until", dict(big, Ops={"group_by_until"}, Faults=True,
                                                                        DKinds={"N", "E"}), 1500))
@@ -139,6 +145,8 @@ def run(tier):
                              "whether a group whose creation fails (duration selector / element mapper raises on its first "
                              "element) was handed out before the failure (both allowed)",
                              "subject_mapper argument (not generated)",
+                             "re-entrant feedback is generated for timed expiries only (not from inside the source's own "
+                             "on_next, i.e. not with content-dependent durations)",
                              "source subscription interval, except in dispose scenarios (closed at the dispose instant)"])
     for x in stats["samples"]:
         ck.sample(x)
